@@ -98,6 +98,12 @@ func (p *C12) Generate(seed uint64, run int) *Case {
 			c.Labels = append(c.Labels, "input:invalid-utf8")
 		}
 	}
+	if r.Chance(1, 3) {
+		// an option this tree has and the pinned commit has not (from its help text)
+		if name := p.w.WithNewFlag(r, &b); name != "" {
+			c.Labels = append(c.Labels, "new-flag:"+name)
+		}
+	}
 	// one run in five: an input that makes the command fail
 	if b.Input != nil && r.Chance(1, 5) {
 		b.Input = breakInput(r, &b)
